@@ -204,6 +204,8 @@ struct SplineAdapter final : ISpline
     {
         Mat m = toMat(gC);
         G g;
+        if (staleRows < 0)
+            staleRows = std::max(0, own.getNumSegments() - 1);
         g.inner_points = Mat::Constant(staleRows, DIM, 7.25);
         g.times = VectorXd::Constant(staleRows + 1, -3.5);
         g.start.p.setConstant(11.0);
@@ -221,6 +223,41 @@ struct SplineAdapter final : ISpline
             g.end.j.setConstant(18.0);
         }
         own.propagateGrad(m, gT, g);
+        return fromG(g);
+    }
+    MatrixXd partialCStale(bool sameShape) const override
+    {
+        Mat m = Mat::Constant(sameShape ? own.getNumSegments() * S::COEFF_NUM : own.getNumSegments() * S::COEFF_NUM + 3, DIM, -9.75);
+        own.getEnergyPartialGradByCoeffs(m);
+        return fromMat(m);
+    }
+    VectorXd partialTStale(bool sameShape) const override
+    {
+        VectorXd v = VectorXd::Constant(sameShape ? own.getNumSegments() : own.getNumSegments() + 2, 6.5);
+        own.getEnergyPartialGradByTimes(v);
+        return v;
+    }
+    Grads energyGradStale(bool sameShape) const override
+    {
+        G g;
+        const int rows = std::max(0, own.getNumSegments() - 1);
+        g.inner_points = Mat::Constant(sameShape ? rows : rows + 2, DIM, 3.25);
+        g.times = VectorXd::Constant(sameShape ? own.getNumSegments() : own.getNumSegments() + 1, -8.5);
+        g.start.p.setConstant(21.0);
+        g.start.v.setConstant(22.0);
+        g.end.p.setConstant(23.0);
+        g.end.v.setConstant(24.0);
+        if constexpr (ORDER >= 5)
+        {
+            g.start.a.setConstant(25.0);
+            g.end.a.setConstant(26.0);
+        }
+        if constexpr (ORDER >= 7)
+        {
+            g.start.j.setConstant(27.0);
+            g.end.j.setConstant(28.0);
+        }
+        own.getEnergyGrad(g);
         return fromG(g);
     }
     static VectorXd fromVec(const Vec &v)
